@@ -522,9 +522,9 @@ func writeEvidence(id, tier string, seed int, specs []harnessSpec, results []*sy
 		perHarness = append(perHarness, map[string]interface{}{
 			"harness": r.Harness, "paths": r.Paths, "infeasible_paths": r.Infeasible, "ssa_instructions": r.Steps, "forks": r.Forks,
 			"path_ends": r.Ends, "assertions": labels, "marks": r.Marks, "findings": len(r.Findings),
-			"queries": map[string]int{"sat": r.Solver.Sat, "unsat": r.Solver.Unsat, "unknown": r.Solver.Unknown},
+			"queries":               map[string]int{"sat": r.Solver.Sat, "unsat": r.Solver.Unsat, "unknown": r.Solver.Unknown},
 			"cross_solver_rechecks": map[string]int64{"rechecked": r.CrossChecked, "second_solver_unknown": r.CrossUnknown, "disagreements": 0},
-			"solver_time_s": r.Solver.Time.Seconds(), "wall_s": r.Wall.Seconds(), "unwind_hits": r.Unwinds, "encode_errors": r.EngineErrors,
+			"solver_time_s":         r.Solver.Time.Seconds(), "wall_s": r.Wall.Seconds(), "unwind_hits": r.Unwinds, "encode_errors": r.EngineErrors,
 		})
 	}
 	if len(samples) == 0 {
